@@ -186,7 +186,8 @@ pub fn gen_case(seed: u64, idx: u64) -> (&'static str, String) {
             let mut points: Vec<usize> = (0..n).filter_map(|_| if toks.is_empty() { None } else { Some(toks[rng.below(toks.len())].0) }).collect();
             points.sort(); points.dedup();
             for (k, p) in points.iter().enumerate().rev() {
-                let ins = match rng.below(5) { 0 => "\n\n".to_string(), 1 => format!(" // c{}x{}\n\n", idx % 9973, k), _ => format!(" // c{}x{}\n", idx % 9973, k) };
+                // (sometimes with no space between the code and the `//`)
+                let ins = match rng.below(6) { 0 => "\n\n".to_string(), 1 => format!(" // c{}x{}\n\n", idx % 9973, k), 2 => format!("// c{}x{}\n", idx % 9973, k), _ => format!(" // c{}x{}\n", idx % 9973, k) };
                 s.insert_str(*p, &ins);
             }
             if crate::qv::parses(&s) { ("trivia-injection", s) } else { ("corpus", base) }
